@@ -28,6 +28,16 @@ P = {
    "Static analysis. For all 40 strategy types: len(actions) = max(n, warm-up) (so exactly n beyond the warm-up and never fewer than n), anchor exactly 0, the final prefix is strategy.Hold and covers every element computed from another Shift's fill value, for ALL admissible configurations and n >= 0; compounds/decorators against the Strategy contract; every registry entry's type was analysed; Action values originate only from the three constants.",
    "Trusts go/types, the Strategy interface contract for wrapped strategies, sub-indicator contracts, Γ, Fourier–Motzkin. Alligator and SMMA strategies emit n+1 actions one day late (pinned by their tests): known findings.",
    "§4 C05"),
+ "C07": (True,
+   "decision-table extraction (symbolic execution of loop-free decision closures into guarded commands) evaluated exhaustively on the finite abstract domains their atoms induce and compared with the documented tables",
+   "Static analysis, exhaustive on finite domains: Inverse, Split and the MACD-RSI combiner point by point over {Sell,Hold,Buy}; And/Or/Majority on every tally with buy+hold+sell=k, k<=6 (realises every consistent weak ordering of the compared quantities); CountActions takes one action per source and increments exactly the matching counter; every source is denormalised; No-Loss and Stop-Loss as transducers over action x {not invested, invested} x ordering(level, close), outputs and level updates compared with the specification transducer, from which the safety statements follow for all histories. Semantic comparison: branch order and if/switch style do not matter. Wrapped strategies' behaviour and float rounding are not decided.",
+   "Trusts go/types and the specification tables (DESIGN appendix C); closing prices are positive so that level 0 encodes 'not invested'.",
+   "§4 C07"),
+ "C08": (True,
+   "decision-table extraction of NormalizeActions/DenormalizeActions/CountTransactions/Outcome, exhaustive product exploration of the extracted transducers, exact rational-function normal forms for the portfolio updates, sign analysis, shape calculus for lengths",
+   "Static analysis: the two action normalisers are extracted as finite transducers, compared with their tables, and explored exhaustively (alternation Buy/Sell starting with Buy; Normalize∘Denormalize = id on that language); Outcome's step is extracted over {cash, invested} x action, its updates and result compared as normalised rational functions with the all-in/all-out portfolio (value conserved across a trade, 0 until the first Buy, idempotent under repeated signals), non-negativity preserved (result >= -1); one entry per (value, action) pair by the shape calculus; ComputeWithOutcome wiring. Float rounding of the compounded product is not decided.",
+   "Trusts go/types, the specification tables, exact rational arithmetic in internal/sym.",
+   "§4 C08"),
  "C09": (True,
    "SSA mod-summary analysis over go/ssa with a CHA call graph (which parameters / captured variables / package variables may a function write through, to a fixpoint; allocations and received elements are fresh) + closure-cell ownership lint",
    "Static analysis of the mechanism the property anchors: no store, map update or delete reachable from any Compute/Report/IdlePeriod/Name/String method of the indicator and strategy types (through static calls, interface calls resolved by class-hierarchy analysis, goroutines and closures) goes through the receiver or to a package-level variable, so all per-run state is allocated per call; and every mutable local captured by a function that a stage runs in its goroutine has that function as its only user. With C03's determinacy and linearity rules this makes repeated and concurrent calls independent. Not a dynamic race detection and silent about third-party code.",
